@@ -18,20 +18,20 @@ PROPS = {
     "C18": {
         "level": "exploration",
         "technique": "runtime monitoring: functor run counter + in-flight counter, per-get() result address / value / exception log, lifetime registry on result and functor; hook-point and futex perturbation; plain, TSan and ASan(no small-buffer allocator) builds",
-        "level_text": "Each case builds one Future<value|reference|void> on ThreadPool / TaskSet / ConcurrentTaskSet / ImmediateInvoker / NewThreadInvoker / a harness ManualInvoker (async and deferred policies both ways, pools of 0..4 threads, workers optionally blocked so that waiter-inline and pool execution both occur), hands copies to 1..6 threads that run random sequences of get / wait / wait_for / wait_until / is_ready / copy / move / share / assign / destroy (optionally all released into get() at once), optionally drops the original handle, and checks: functor executed exactly once and never concurrently with itself; every get() returned the same address and the functor's value (or rethrew the functor's exception, never returned normally); wait()/get() imply is_ready(); result and functor destroyed exactly once. Held-on-what-was-run, not a proof.",
+        "level_text": "Each case builds one Future<value|reference|void> on ThreadPool / TaskSet / ConcurrentTaskSet / ImmediateInvoker / NewThreadInvoker / a harness ManualInvoker (async and deferred policies both ways, pools of 0..4 threads, workers optionally blocked so that waiter-inline and pool execution both occur), hands copies to 1..6 threads that run random sequences of get / wait / wait_for / wait_until / is_ready / copy / move / share / assign / destroy (optionally all released into get() at once), optionally drops the original handle; a second family ('burst') runs up to 32 rounds per case in which persistent waiter threads and the executor are released into get()/run() on a fresh future by one barrier. Checked: functor executed exactly once and never concurrently with itself; every get() returned the same address and the functor's value (or rethrew the functor's exception, never returned normally); wait()/get() imply is_ready(); result and functor destroyed exactly once. Held-on-what-was-run, not a proof.",
         "level_note": "The two-thread window between the status load and the CAS in run() has no hook point; it is reached by releasing up to 6 waiters simultaneously and by the case count. Lifetime errors inside SmallBufferAllocator blocks are only visible through the Tracked members and in the asan-nosba build.",
         "design_ref": "DESIGN.md §4 C18",
-        "sweep_args": {"n": 120},
-        "rule": "case = (schedulable, pool size, async, deferred, result kind, throws, waiter count, per-waiter op program, gate mode, perturbation) drawn from the seeded generator; non-trivial = at least two waiter threads and at least one get() executed; distinct by full spec",
+        "sweep_args": {"n": 96, "burst": 16},
+        "rule": "case = (schedulable, pool size, async, deferred, result kind, throws, waiter count, per-waiter op program, gate mode, perturbation) drawn from the seeded generator; non-trivial = at least two waiter threads and at least one get() executed; distinct by full spec; burst cases are blocks and report their rounds as _evals/_nt",
         "required_classes": ["ran:waiter-inline", "ran:pool-worker", "ran:ctor-inline", "ran:new-thread", "ran:manual-runner",
                              "sched:pool", "sched:taskset", "sched:ctaskset", "sched:immediate", "sched:newthread", "sched:manual",
                              "res:value", "res:ref", "res:void", "throws", "gated", "multi-getter", "get-during-run",
-                             "original-dropped", "not-deferred", "async", "pool0"],
+                             "original-dropped", "not-deferred", "async", "pool0", "burst", "burst:manual", "burst:pool", "burst:newthread", "burst:ctaskset"],
         "assumptions": _A,
         "runs": {
-            "quick": [{"config": "plain", "shards": 16, "args": {"n": 800}},
-                      {"config": "tsan", "shards": 8, "args": {"n": 80}},
-                      {"config": "asan-nosba", "shards": 8, "args": {"n": 160}}],
+            "quick": [{"config": "plain", "shards": 16, "args": {"n": 640, "burst": 160}},
+                      {"config": "tsan", "shards": 8, "args": {"n": 64, "burst": 16}},
+                      {"config": "asan-nosba", "shards": 8, "args": {"n": 128, "burst": 24}}],
             "thorough": [{"config": "plain", "shards": 16, "seeds": 3},
                          {"config": "tsan", "shards": 16, "args": {"n": 8000}},
                          {"config": "asan-nosba", "shards": 16, "args": {"n": 12000}},
